@@ -41,6 +41,16 @@ theorem C11_guards_cover_derefs :
     genCfg.sessionsChecked = true := by
   decide
 
+/-- **Nothing waits for ever on a lock.**  Every function of the package gives back the mutexes it
+takes on every control-flow path -- no `return`, `continue`, `break` or fall-through leaves one
+locked, none is taken while it is held, directly or through a method of the same receiver -- except
+the reviewed findings (`reviewedLockFindings`, one latent path outside the room API); the functions
+the room API path runs through are among the analysed ones.  This is what lets the model treat the
+consumers on the hub main loop and on the bus subscribers as functions that return: together with
+`C11_never_fatal` (no panic) it is the "running and responsive" of the statement.  A lock left
+behind on any path -- reached by the generated requests or not -- changes `lockFindings`. -/
+theorem C11_locks_balanced : locksBalanced = true := by decide +kernel
+
 /-! ## 1. Answered, never fatal -/
 
 /-- What `serve` does with any body: a reply (never a dropped connection) whose status is 2xx/4xx
@@ -213,10 +223,7 @@ theorem C11_malformed_no_event (w : World) (room : String) (b : Body) (hm : malf
 
 /-! ## 3. Sequences of requests -/
 
-theorem sendTo_dialout (w : World) (ts : List Sess) (ev : Ev) : (sendTo w ts ev).world.dialout = w.dialout := by
-  unfold sendTo; simp only []
-  repeat' split
-  all_goals rfl
+theorem sendTo_dialout (w : World) (ts : List Sess) (ev : Ev) : (sendTo w ts ev).world.dialout = w.dialout := rfl
 
 theorem consumeRoom_dialout (w : World) (room : String) (m : Request) :
     (consumeRoom w room m).world.dialout = w.dialout := by
@@ -224,12 +231,12 @@ theorem consumeRoom_dialout (w : World) (room : String) (m : Request) :
   split
   · rfl
   · repeat' split
-    all_goals first | rfl | exact inCallAll_dialout _ _
+    all_goals first | rfl | exact inCallAll_dialout _ _ _
 
 theorem deliver_dialout (w : World) (p : Pub) : (deliver w p).world.dialout = w.dialout := by
   cases p with
   | user uid ev =>
-    show (if uid = "" then ({ world := w } : CRes) else sendTo w (w.sessions.filter (·.user = uid)) ev).world.dialout = _
+    simp only [deliver]
     split
     · rfl
     · exact sendTo_dialout _ _ _
@@ -264,6 +271,69 @@ theorem C11_run_answered (reqs : List (String × Body)) : ∀ (w : World), w.dia
 /-- `fixupUserSessions` makes true what `addInternalSessions` and `filterMessage` assert. -/
 theorem C11_fixup_entries_ok (w : World) (es : List Entry) : entriesOk (fixup w es) = true := fixup_ok w es
 
+/-! ## 3b. Rooms do not reach into each other
+
+A request for one room may name sessions of the same backend that sit in other rooms (the room
+session ids are resolved per backend, not per room). -/
+
+theorem filter_map_outside (p : Sess → Bool) (f : Sess → Sess) (hf : ∀ s, p (f s) = p s)
+    (hid : ∀ s, p s = true → f s = s) : ∀ ss : List Sess, (ss.map f).filter p = ss.filter p := by
+  intro ss
+  induction ss with
+  | nil => rfl
+  | cons s ss ih =>
+    simp only [List.map_cons, List.filter_cons, hf s]
+    cases hp : p s with
+    | true => simp [hid s hp, ih]
+    | false => simp [ih]
+
+/-- An in-call request for `room` leaves every session outside `room` exactly as it was: flags of
+sessions in other rooms, and of sessions in no room, are untouched whatever the entries name. -/
+theorem C11_incall_stays_in_room (room : String) (es : List Entry) : ∀ ss : List Sess,
+    (applyInCall room ss es).filter (fun s => s.room != some room) = ss.filter (fun s => s.room != some room) := by
+  induction es with
+  | nil => intro ss; rfl
+  | cons e es ih =>
+    intro ss
+    unfold applyInCall
+    simp only []
+    rw [ih]
+    repeat' split
+    all_goals first
+      | rfl
+      | (apply filter_map_outside
+         · intro s; split <;> rfl
+         · intro s hs
+           split
+           · rename_i h
+             simp only [Bool.and_eq_true, decide_eq_true_eq] at h
+             simp [h.2] at hs
+           · rfl)
+
+/-- Two rooms: `c1` in "100", `c2` in "200". -/
+def twoRooms : World :=
+  { props := [("100", "{}"), ("200", "{}")],
+    sessions := [{ pub := "c1", user := "u1", room := some "100", rsid := "rs1" },
+                 { pub := "c2", user := "u2", room := some "200", rsid := "rs2" }] }
+
+/-- The situation itself: an in-call request for room "200" whose `changed` list names the session
+of room "100".  The entry resolves (same backend), is forwarded, and is skipped by the room: the
+member of "200" gets the update, `c1` is not in any call, the next request is served as ever. -/
+def foreignInCall : Request :=
+  { type := "incall",
+    inCall := some ({ inCall := RawInCall.int 1,
+                      changed := [[("inCall", Val.num 1), ("sessionId", Val.str "rs1")]],
+                      users := [[("sessionId", Val.str "rs1")]] } : InCall) }
+
+example :
+    (step genCfg twoRooms "200" (.ok foreignInCall)).http = .status 200 ∧
+    (step genCfg twoRooms "200" (.ok foreignInCall)).crash = false ∧
+    (step genCfg twoRooms "200" (.ok foreignInCall)).events = [⟨"c2", .participantsUpdate⟩] ∧
+    (step genCfg twoRooms "200" (.ok foreignInCall)).world.sessions.all (fun s => !s.inCall) = true ∧
+    (step genCfg (step genCfg twoRooms "200" (.ok foreignInCall)).world "200"
+      (.ok { type := "message", message := some { data := "1" } })).events = [⟨"c2", .roomMessage⟩] := by
+  decide
+
 /-! ## 4. Without the guards the statements are false (the tree before the fix)
 
 The same model with validation switched off is the code as it was; these are the witnesses that were
@@ -273,7 +343,7 @@ def noValidation : Cfg := { genCfg with validate := false }
 
 /-- One member (`c1`, Nextcloud session `rs1`) in room "100". -/
 def witnessWorld : World :=
-  { roomId := "100", props := "{}", sessions := [{ pub := "c1", user := "u1", rsid := some "rs1" }] }
+  { props := [("100", "{}")], sessions := [{ pub := "c1", user := "u1", room := some "100", rsid := "rs1" }] }
 
 /-- `{"type":"update"}` for an existing room: no reply, and the hub main loop dies. -/
 theorem C11_unvalidated_update_kills_hub :
